@@ -59,7 +59,20 @@ func runC17(rc *RunCtx) {
 	if mode == 2 {
 		k = 16 + ch.Intn("ksteady", 400)
 	}
-	rc.Res.Config = fmt.Sprintf("mode=%d k=%d observers=%d stalls=%v hold=%dperiods transientErrAtHolderOp=%d", mode, k, nObs, stalls, holdPeriods, transientAt)
+	// a second user of the holder's lock OBJECT (an ILock shared inside one process): its attempts fail because the lock
+	// is held, and they must leave the held lock's heartbeat alone
+	secondUser := mode == 0 && !stalls && ch.Pick("seconduser", 2, 1) == 1
+	var secondTimeout, secondDelay time.Duration
+	if secondUser {
+		secondTimeout = []time.Duration{10 * time.Millisecond, 60 * time.Millisecond, 130 * time.Millisecond}[ch.Intn("secondtimeout", 3)] + 13*time.Microsecond // off the latency grid
+		secondDelay = time.Duration(1+ch.Intn("seconddelay", 120)) * time.Millisecond
+		if holdPeriods < 12 {
+			holdPeriods = 12
+		}
+	}
+	// the live holder got its lock by taking over the stale lock of a dead predecessor (override flag)
+	takeover := mode == 0 && ch.Pick("takeover", 3, 1) == 1
+	rc.Res.Config = fmt.Sprintf("holderTookOverStaleLock=%v mode=%d k=%d observers=%d stalls=%v hold=%dperiods transientErrAtHolderOp=%d secondUserOfHolderObject=%v(timeout %v after %v)", takeover, mode, k, nObs, stalls, holdPeriods, transientAt, secondUser, secondTimeout, secondDelay)
 	var w *lockWorld
 	var sim *Sim
 	res := rc.Res
@@ -77,11 +90,24 @@ func runC17(rc *RunCtx) {
 		w = newLockWorld(rc, sim, 0, false)
 		w.stalls = stalls
 		w.quiet = true
-		holder := w.addClient(1, false)
+		holder := w.addClient(1, takeover)
+		if takeover {
+			v := w.disk.View(99)
+			_ = v.Mkdir(w.lockDir, 0o755)
+			f, _ := v.Create(w.hbFile)
+			_, _ = f.Write([]byte("alive @ long ago"))
+			_ = f.Close()
+			old := time.Now().Add(-10 * time.Second)
+			_ = v.Chtimes(w.hbFile, old, old)
+			_ = v.Chtimes(w.lockDir, old, old)
+			res.Fault("dead-predecessor-lock-taken-over")
+		}
 		started := make(chan struct{}) // closed once the holder's acquire attempt is over
 		var observers []*lockClient
 		for i := 0; i < nObs; i++ {
-			observers = append(observers, w.addClient(2+i, ch.Intn("obsoverride", 2) == 1))
+			// observers may spell the lock id with surrounding white space: same lock
+			spelling := []string{lockID, lockID, " " + lockID, lockID + "\n"}[ch.Intn("obsidspelling", 4)]
+			observers = append(observers, w.addClientWithID(2+i, ch.Intn("obsoverride", 2) == 1, spelling))
 		}
 		if transientAt >= 0 {
 			seen := 0
@@ -135,10 +161,14 @@ func runC17(rc *RunCtx) {
 				return
 			}
 			if err != nil {
+				if transientAt >= 0 {
+					res.Probe("holder-acquire-failed-under-io-error") // nothing is held: the run is vacuous
+					return
+				}
 				res.Infra = fmt.Sprintf("holder could not acquire a free lock: %v", err)
 				return
 			}
-			w.acquired(1, "TryLock", false)
+			w.acquired(1, "TryLock", takeover)
 			holding = true
 			time.Sleep(time.Duration(holdPeriods) * period)
 			sim.Yield(1, "hold-end")
@@ -150,6 +180,31 @@ func runC17(rc *RunCtx) {
 			_ = holder.lock.Unlock(holder.ctx)
 			w.released(1)
 		})
+		if secondUser {
+			sim.Go("holder-object-second-user", func() {
+				<-started
+				time.Sleep(secondDelay)
+				sim.Yield(1, "second-user-start")
+				if !holding {
+					return
+				}
+				res.Fault("failed-attempt-on-held-lock-object")
+				err := holder.lock.LockWithTimeout(holder.ctx, secondTimeout)
+				sim.Yield(1, "second-user-lockwithtimeout-done")
+				if err == nil && holding {
+					res.Violate("live-lock-judged-stale", "live-lock|second-acquisition-through-same-object", fmt.Sprintf("t=%v LockWithTimeout through the holder's own lock object succeeded while the lock is held", sim.Elapsed()))
+					return
+				}
+				if !holding {
+					return
+				}
+				err = holder.lock.TryLock(holder.ctx)
+				sim.Yield(1, "second-user-trylock-done")
+				if err == nil && holding {
+					res.Violate("live-lock-judged-stale", "live-lock|second-acquisition-through-same-object", fmt.Sprintf("t=%v TryLock through the holder's own lock object succeeded while the lock is held", sim.Elapsed()))
+				}
+			})
+		}
 		liveCheck := func(obs *lockClient, what string, wasHolding bool) {
 			// S1: live holder, stall-free configuration
 			if !(mode == 0 && !stalls && wasHolding && holding) {
@@ -158,6 +213,7 @@ func runC17(rc *RunCtx) {
 			res.Violate("live-lock-judged-stale", "live-lock|"+what,
 				fmt.Sprintf("t=%v observer %d: %s while the holder (client 1) is alive, its context not cancelled and its release not begun (hold of %d periods)", sim.Elapsed(), obs.id, what, holdPeriods))
 		}
+		inStep := map[int]bool{} // observer id -> inside an API call of its step
 		for _, obs := range observers {
 			obs := obs
 			type ostep struct {
@@ -187,6 +243,7 @@ func runC17(rc *RunCtx) {
 					w.statSeen[obs.id] = nil
 					rm0 := w.removes[obs.id]
 					w.mu.Unlock()
+					inStep[obs.id] = true
 					switch st.act {
 					case 0:
 						stale := obs.lock.IsStale()
@@ -228,6 +285,7 @@ func runC17(rc *RunCtx) {
 							liveCheck(obs, "TryLock=ErrStaleLock", wasHolding)
 						}
 					}
+					inStep[obs.id] = false
 					time.Sleep(st.pause)
 					sim.Yield(obs.id, "obs-pause-end")
 				}
@@ -235,7 +293,36 @@ func runC17(rc *RunCtx) {
 					return
 				}
 				// S3: recovery after the holder's death, driven by observer 2
-				deadline := died.Add(3*period + 20*time.Millisecond)
+				// the recovery clauses below are about one client recovering the dead holder's lock; while another observer is
+				// still inside a call it began before the death (it may itself be releasing or re-acquiring the lock) a
+				// refusal seen by this client is ordinary contention, not a failure to recover: let those calls finish first
+				othersBusy := func() bool {
+					for id, busy := range inStep {
+						if id != obs.id && busy {
+							return true
+						}
+					}
+					return false
+				}
+				waited := false
+				for i := 0; othersBusy(); i++ {
+					if i == 0 {
+						waited = true
+						res.Probe("recovery-waited-for-another-observer")
+					}
+					if i > 400 {
+						return
+					}
+					time.Sleep(5 * time.Millisecond)
+					sim.Yield(obs.id, "recovery-wait-others")
+				}
+				// (a call of another observer that was under way may have taken the lock over and released it: the three
+				// periods count from the later of the death and the end of those calls)
+				from := died
+				if waited {
+					from = time.Now()
+				}
+				deadline := from.Add(3*period + 20*time.Millisecond)
 				reported := false
 				for {
 					w.mu.Lock()
@@ -280,6 +367,9 @@ func runC17(rc *RunCtx) {
 				case "ok":
 					res.Probe("recovered")
 					w.acquired(obs.id, "TryLock", false)
+					// TryLock has just started the heartbeat goroutine: let it reach its first operation before the
+					// release cancels it (otherwise the Go runtime decides whether that first heartbeat is attempted)
+					sim.Yield(obs.id, "recovered")
 					w.releasing(obs.id)
 					_ = obs.lock.Unlock(obs.ctx)
 					w.released(obs.id)
